@@ -1587,3 +1587,34 @@ pub fn channel_monitor_gate_dump<CM: crate::ln::channelmanager::AChannelManager>
 	let chan = peer_state.channel_by_id.get(channel_id)?.as_funded()?;
 	Some(chan.verif_monitor_gate_dump())
 }
+
+/// C01 (cooperative close): the private `build_closing_transaction`, `calculate_closing_fee_limits` and
+/// `get_closing_transaction_weight` of a funded channel, evaluated on the given balance / channel value /
+/// dust limit / funder side / fee inputs (they temporarily replace the channel's own; the channel is left
+/// unchanged). `build` = `(to_holder, to_counterparty, total_fee, output values of the built transaction)`.
+#[cfg(feature = "std")]
+pub fn channel_closing_probe<CM: crate::ln::channelmanager::AChannelManager>(
+	node: &CM, counterparty_node_id: &bitcoin::secp256k1::PublicKey,
+	channel_id: &crate::ln::types::ChannelId, value_to_self_msat: u64, channel_value_satoshis: u64,
+	holder_dust_limit_satoshis: u64, is_outbound: bool, proposed_total_fee_satoshis: u64,
+	skip_remote_output: bool, target_closing_feerate_sats_per_kw: Option<u32>, feerate_per_kw: u32,
+	force_close_avoidance_max_fee_satoshis: u64,
+) -> Option<(
+	Result<(u64, u64, u64, alloc::vec::Vec<u64>), alloc::string::String>,
+	Result<(u64, u64), alloc::string::String>,
+	u64,
+)> {
+	node.get_cm().verif_closing_probe(
+		counterparty_node_id,
+		channel_id,
+		value_to_self_msat,
+		channel_value_satoshis,
+		holder_dust_limit_satoshis,
+		is_outbound,
+		proposed_total_fee_satoshis,
+		skip_remote_output,
+		target_closing_feerate_sats_per_kw,
+		feerate_per_kw,
+		force_close_avoidance_max_fee_satoshis,
+	)
+}
